@@ -121,6 +121,14 @@ PFinish(st, par) == IF par.join THEN [st EXCEPT !.ents = JoinEnts(st.ents)] ELSE
 
 ParseFile(lines, par) == PFinish(ParseLines(PInit, lines, par), par)
 
+\* ---- framing: the file on disk (read_file: one getline per physical line) ----
+\* A file is its lines joined by newlines; the newline after the LAST line is optional and carries no
+\* meaning: every line is handed to the line step without its newline, whether it had one or not.
+FileBytes(lines, fnl) == JoinWith(lines, NL) \o (IF fnl /\ lines # <<>> THEN NL ELSE <<>>)
+LinesOfBytes(bs) == IF bs = <<>> THEN <<>> ELSE
+                    LET ls == SplitAt(bs, NLc) IN IF ls[Len(ls)] = <<>> THEN SubSeq(ls, 1, Len(ls) - 1) ELSE ls
+ParseBytes(bs, par) == ParseFile(LinesOfBytes(bs), par)
+
 \* ---- what the public getters show of a parsed object ----
 ByGroup(ents, g) == SelectSeq(ents, LAMBDA e : e.g = g)
 Listing(st) == Cat([i \in 1..(Len(st.groups) + 1) |->
